@@ -16,7 +16,7 @@
    1680 for the 3-call flows); requests that are refused make fewer calls and simply drop out.
    Beyond the bound: serial_K_once holds for ARBITRARY worlds, stores with unique index values and
    request pairs. *)
-From Verif Require Import Base Scope Types Prog Pop Token Authorize System Config Run Monitors Race Fresh OneShot C15Sweeps C15Proofs.
+From Verif Require Import Base Scope Types Prog Pop Token Authorize System Config Run Monitors Race RaceUri Fresh OneShot C15Sweeps C15UriDefs C15UriSweeps C15UriProofs C15Proofs.
 Local Open Scope nat_scope.
 
 (* ---- the schedules quantified over are all of them ---- *)
@@ -132,6 +132,77 @@ Theorem race_request_uri_serial : forall rotation k sched, k = 2 \/ k = 3 ->
    In sched (race_schedules su k) -> race_overlaps su k sched = false -> successes su k sched <= 1).
 Proof. intros; split; [exact (kind_serial scn_par sweep_par _ _ _ H)|exact (kind_serial scn_par_page sweep_par_page _ _ _ H)]. Qed.
 Print Assumptions race_request_uri_serial.
+
+(* ---- the pushed request_uri with EVERY response type (Model/RaceUri.v scn_uri; a policy that finishes at once) ----
+   With `token` / `id_token` in the response type the authorization endpoint itself issues artifacts (access
+   token + its grant session, ID token), AFTER it consumed the pushed session.  For the seven response types,
+   rotation on and off:
+     race_request_uri_response_types_live: the scenario is live and the storage calls of one accepted request are
+        CGet AByPar CGet (ASave|ADel) [GSave]  - the consume precedes the grant save;
+     race_request_uri_response_types_count: on EVERY interleaving the number of requests answered with artifacts
+        equals the number of lookups scheduled before the first consume; each winner - and nobody else - is handed an
+        access token (when the response type has `token`: as many grant sessions are written, the token values are
+        pairwise different), a code (`code`), an ID token (`id_token`); and a request whose lookup is scheduled after
+        ANY request's consume is refused - the window ends at the consume, it does not reach the grant save;
+     _classification / _refuted / _serial as for the other kinds.  The property is REFUTED here too (known finding
+     race:request_uri_implicit:rotation=any:overlap, K3: two overlapping requests are BOTH handed access tokens). *)
+Theorem race_request_uri_response_types_live : forall rt rotation, In rt ru_resp_types ->
+  let su := setup_of (scn_uri rt rotation) in
+  scn_live (scn_uri rt rotation) = true /\ solo_log su = ru_solo_log rt /\
+  (ru_issues_token rt = true -> consume_pos su < grant_save_pos su /\ grant_save_pos su < solo_calls su).
+Proof. exact uri_live_lemma. Qed.
+Print Assumptions race_request_uri_response_types_live.
+
+Theorem race_request_uri_response_types_count : forall rt rotation k sched, In rt ru_resp_types -> k = 2 ->
+  let su := setup_of (scn_uri rt rotation) in
+  In sched (race_schedules su k) ->
+  successes su k sched = race_window_count su k sched /\
+  tokens_obtained su k sched = (if ru_issues_token rt then successes su k sched else 0) /\
+  grants_written su k sched = (if ru_issues_token rt then successes su k sched else 0) /\
+  nodup_ids (token_values su k sched) = true /\
+  codes_obtained su k sched = (if rt_contains rt "code" then successes su k sched else 0) /\
+  idts_obtained su k sched = (if rt_contains rt "id_token" then successes su k sched else 0) /\
+  (forall i j, i < k -> j < k -> occ_pos i (consume_pos su) sched 0 < occ_pos j (lookup_pos su) sched 0 ->
+     nth j (outcomes su k sched) false = false).
+Proof.
+  intros rt rotation k sched Hrt -> su Hin.
+  destruct (uri_facts_all rt rotation sched Hrt Hin) as [A B C D E F G]. repeat split; assumption.
+Qed.
+Print Assumptions race_request_uri_response_types_count.
+
+Theorem race_request_uri_response_types_classification : forall rt rotation k sched, In rt ru_resp_types -> k = 2 ->
+  let su := setup_of (scn_uri rt rotation) in
+  In sched (race_schedules su k) -> (2 <= successes su k sched <-> race_overlaps su k sched = true).
+Proof.
+  intros rt rotation k sched Hrt -> su Hin. apply classification_of_count.
+  exact (uf_count _ _ _ _ (uri_facts_all rt rotation sched Hrt Hin)).
+Qed.
+Print Assumptions race_request_uri_response_types_classification.
+
+Theorem race_request_uri_response_types_serial : forall rt rotation k sched, In rt ru_resp_types -> k = 2 ->
+  let su := setup_of (scn_uri rt rotation) in
+  In sched (race_schedules su k) -> race_overlaps su k sched = false -> successes su k sched <= 1.
+Proof.
+  intros rt rotation k sched Hrt -> su Hin. apply at_most_one_of_count.
+  exact (uf_count _ _ _ _ (uri_facts_all rt rotation sched Hrt Hin)).
+Qed.
+Print Assumptions race_request_uri_response_types_serial.
+
+(* three requests: Proofs/C15UriThree.v (race_request_uri_three_hybrid: every interleaving of three requests for the
+   hybrid response type code id_token; race_request_uri_three_code_token_partial: code token, the interleavings that
+   follow the three client lookups) - compiled and kernel-checked with the development, but kept out of this file's
+   dependencies: coqchk re-runs every sweep an order of magnitude slower than the VM (thorough-tier budget). *)
+
+(* refuted: a schedule of two requests on which both win - with `token` in the response type both are handed an
+   access token and two grant sessions are written; and the serial schedule gives exactly one winner *)
+Theorem race_request_uri_response_types_refuted : forall rt rotation, In rt ru_resp_types ->
+  let su := setup_of (scn_uri rt rotation) in
+  (exists sched, In sched (race_schedules su 2) /\ 2 <= successes su 2 sched /\
+     (ru_issues_token rt = true -> tokens_obtained su 2 sched = 2 /\ grants_written su 2 sched = 2)) /\
+  In (serial 2 (solo_calls su)) (race_schedules su 2) /\
+  race_overlaps su 2 (serial 2 (solo_calls su)) = false /\ successes su 2 (serial 2 (solo_calls su)) = 1.
+Proof. exact uri_refuted_lemma. Qed.
+Print Assumptions race_request_uri_response_types_refuted.
 
 (* ---- CIBA auth_req_id, poll mode (window AByCiba ... ADel) ---- *)
 Theorem race_auth_req_id_count : forall rotation k sched, k = 2 \/ k = 3 ->
